@@ -18,6 +18,12 @@ import (
 func main() {
 	// debugging aid: vcheck script <script.json> <out.h5> runs an operation script and prints
 	// per-operation results and the logical dump of the reopened file
+	if len(os.Args) >= 4 && os.Args[1] == "c17script" {
+		// debugging aid: writer history k of C17 as JSON
+		k, _ := strconv.Atoi(os.Args[2])
+		_ = os.WriteFile(os.Args[3], props.C17WriterScriptJSON(k), 0o644)
+		return
+	}
 	if len(os.Args) >= 3 && os.Args[1] == "fields" {
 		// debugging aid: the field map C07 uses for a file
 		for _, l := range props.C07FieldLines(os.Args[2]) {
